@@ -1363,6 +1363,133 @@ pub fn wl_oneshot<L: RawMutex + Send + Sync + 'static>(seed: u64, n: usize, broa
     take_fail(ctx, &logs, &names)
 }
 
+/// Two senders and a closer race on a borrowed oneshot (or oneshot broadcast) channel while receivers wait
+/// (C12 / C11): exactly one of { send(42) Ok, send(43) Ok, close() NewlyClosed } wins; a failed send hands its
+/// own value back; the receivers see the winner's value (one of them / all of them) or None, and terminate.
+pub fn wl_oneshot_race<L: RawMutex + Send + Sync + 'static>(seed: u64, n: usize, broadcast: bool, ctx: &mut Ctx, st: &mut ConcStats) -> Option<Violation> {
+    let n = n.max(5);
+    let run = Run::new(n);
+    // results: 0 = not yet, 1 = won (Ok / NewlyClosed), 2 = lost (Err with own value / AlreadyClosed), 3 = Err with a foreign value
+    let res = [AtomicU64::new(0), AtomicU64::new(0), AtomicU64::new(0)];
+    let got = std::sync::Mutex::new(Vec::<Option<u64>>::new());
+    let mut logs: Vec<Vec<LogEv>> = vec![];
+    let mut verdict = Verdict::Finished;
+    let names = ["send", "receive", "close"];
+    macro_rules! body {
+        ($ch:expr) => {{
+            let ch = $ch;
+            std::thread::scope(|s| {
+                let mut hs = vec![];
+                for i in 0..n {
+                    let (res, got, run, ch) = (&res, &got, run.clone(), &ch);
+                    hs.push(s.spawn(move || {
+                        enter_worker(&run, i, seed ^ (i as u64 + 1).wrapping_mul(0x9E37_79B9));
+                        let mut rng = Rng::new(seed.wrapping_mul(67).wrapping_add(i as u64));
+                        let mut lg: Vec<LogEv> = Vec::with_capacity(8);
+                        for _ in 0..rng.below(4) {
+                            std::thread::yield_now();
+                        }
+                        match i {
+                            0 | 1 => {
+                                let v = 42 + i as u64;
+                                log!(lg, run, i, 0u8, v, {
+                                    let r = ch.send(v);
+                                    let code = match r {
+                                        Ok(()) => 1,
+                                        Err(e) => if e.0 == v { 2 } else { 3 },
+                                    };
+                                    res[i].store(code, Relaxed);
+                                    ((), code)
+                                });
+                                run.ops.fetch_add(1, Relaxed);
+                            }
+                            2 => {
+                                log!(lg, run, i, 2u8, 0u64, {
+                                    let r = ch.close();
+                                    let code = if r == futures_intrusive::channel::CloseStatus::NewlyClosed { 1 } else { 2 };
+                                    res[2].store(code, Relaxed);
+                                    ((), code)
+                                });
+                                run.ops.fetch_add(1, Relaxed);
+                            }
+                            _ => {
+                                let mut how = pick_drive(&mut rng);
+                                loop {
+                                    let done = log!(lg, run, i, 1u8, how_code(how), {
+                                        match drive(&run, i, ch.receive(), how, 1) {
+                                            Outcome::Ready(v) => {
+                                                got.lock().unwrap().push(v);
+                                                (true, v.unwrap_or(0))
+                                            }
+                                            Outcome::Cancelled => (false, 0),
+                                            Outcome::Aborted => (true, 0),
+                                        }
+                                    });
+                                    if done {
+                                        break;
+                                    }
+                                    how = if rng.below(3) == 0 { Drive::Repoll(1) } else { Drive::Block };
+                                }
+                            }
+                        }
+                        leave_worker(&run, i);
+                        lg
+                    }));
+                }
+                verdict = supervise(&run, wall_limit());
+                if verdict != Verdict::Finished {
+                    abort_all(&run);
+                }
+                for h in hs {
+                    logs.push(joined(h));
+                }
+            });
+            queues_empty(ctx, "oneshot channel", &mut |v| ch.verif_inspect(v));
+        }};
+    }
+    if broadcast {
+        body!(futures_intrusive::channel::GenericOneshotBroadcastChannel::<L, u64>::new());
+    } else {
+        body!(futures_intrusive::channel::GenericOneshotChannel::<L, u64>::new());
+    }
+    st.absorb(&run, &logs);
+    let r: Vec<u64> = res.iter().map(|x| x.load(Relaxed)).collect();
+    let winners = r.iter().filter(|x| **x == 1).count();
+    let finished = verdict == Verdict::Finished;
+    ctx.check("C12", "exactly-one-of-two-sends-and-a-close-wins", finished, winners == 1, || {
+        format!("send(42) -> {}, send(43) -> {}, close() -> {} (1 = Ok / NewlyClosed, 2 = rejected): {} winners", r[0], r[1], r[2], winners)
+    });
+    ctx.check("C11", "close-is-newly-closed-only-if-no-send-succeeded", finished, !(r[2] == 1 && (r[0] == 1 || r[1] == 1)), || {
+        format!("close() returned NewlyClosed although a send succeeded as well (send(42) -> {}, send(43) -> {})", r[0], r[1])
+    });
+    ctx.check("C12", "failed-send-returns-its-own-value", true, !r.contains(&3), || "a rejected send handed back a value that is not its own".into());
+    if finished && winners == 1 {
+        let g = got.lock().unwrap().clone();
+        let want = if r[0] == 1 { Some(42) } else if r[1] == 1 { Some(43) } else { None };
+        let hits = g.iter().filter(|v| **v == want && want.is_some()).count();
+        let nones = g.iter().filter(|v| v.is_none()).count();
+        let receivers = n - 3;
+        let ok = match (want, broadcast) {
+            (None, _) => nones == receivers,
+            (Some(_), true) => hits == receivers,
+            (Some(_), false) => hits == 1 && nones == receivers - 1,
+        };
+        ctx.check("C12", "receivers-see-exactly-what-the-winner-decided", true, ok, || format!("winner value {:?}, broadcast={}, receivers got {:?}", want, broadcast, g));
+    }
+    match verdict {
+        Verdict::Finished => {}
+        Verdict::AllParked => {
+            st.deadlock_checks += 1;
+            ctx.check("C12", "every-competing-receiver-terminates", true, false, || "a send or close took effect, yet receivers are parked with clear wake tokens".into());
+        }
+        Verdict::Watchdog => {
+            st.watchdogs += 1;
+            return Some(Violation { prop: "harness", pred: "watchdog", detail: "wall clock watchdog".into(), log: String::new() });
+        }
+    }
+    take_fail(ctx, &logs, &names)
+}
+
 // ------------------------------------------------------------------ state broadcast (C13)
 /// Publisher / follower side of a state broadcast flavour (borrowed channel reference or shared handles).
 pub trait StTx: Send {
@@ -2093,6 +2220,13 @@ fn run_workload_inner(name: &str, seed: u64, ctx: &mut Ctx, st: &mut ConcStats) 
                 wl_handles::<Spin>(seed, n, r, k, ctx, st)
             } else {
                 wl_handles::<Pl>(seed, n, r, k, ctx, st)
+            }
+        }
+        "oneshot" if rng.below(3) == 0 => {
+            if spin {
+                wl_oneshot_race::<Spin>(seed, n, rng.below(2) == 0, ctx, st)
+            } else {
+                wl_oneshot_race::<Pl>(seed, n, rng.below(2) == 0, ctx, st)
             }
         }
         "oneshot" if spin => wl_oneshot::<Spin>(seed, n.max(3), rng.below(2) == 0, ctx, st),
